@@ -224,14 +224,36 @@ where
     S: Read + 's,
     T: TextCodec,
 {
-    let mut v = Vec::new();
-    v.try_reserve_exact(len as usize)
-        .context(AllocationSizeSnafu)?;
-    v.resize(len as usize, 0);
-    source.read_exact(&mut v).context(ReadValueDataSnafu)?;
+    let v = read_value_body(source, len)?;
 
     text.decode(&v)
         .context(DecodeTextSnafu { name: text.name() })
+}
+
+/// Utility function for reading the body of a DICOM element
+/// with the given declared length.
+///
+/// The declared length is not trusted for the allocation:
+/// memory is taken as the data arrives,
+/// so that a corrupted length of several gigabytes
+/// in a short source is reported as an error right away.
+fn read_value_body<S>(source: &mut S, len: u32) -> Result<Vec<u8>>
+where
+    S: Read,
+{
+    let mut v = Vec::new();
+    v.try_reserve_exact((len as usize).min(1 << 16))
+        .context(AllocationSizeSnafu)?;
+    let bytes_read = source
+        .by_ref()
+        .take(u64::from(len))
+        .read_to_end(&mut v)
+        .context(ReadValueDataSnafu)?;
+    if bytes_read != len as usize {
+        return Err(std::io::Error::from(std::io::ErrorKind::UnexpectedEof))
+            .context(ReadValueDataSnafu);
+    }
+    Ok(v)
 }
 
 impl FileMetaTable {
@@ -646,11 +668,7 @@ impl FileMetaTable {
                 }
                 Tag(0x0002, 0x0013) => {
                     // Implementation Version Name
-                    let mut v = Vec::new();
-                    v.try_reserve_exact(elem_len as usize)
-                        .context(AllocationSizeSnafu)?;
-                    v.resize(elem_len as usize, 0);
-                    file.read_exact(&mut v).context(ReadValueDataSnafu)?;
+                    let v = read_value_body(&mut file, elem_len)?;
 
                     builder.implementation_version_name(
                         text.decode(&v)
@@ -659,11 +677,7 @@ impl FileMetaTable {
                 }
                 Tag(0x0002, 0x0016) => {
                     // Source Application Entity Title
-                    let mut v = Vec::new();
-                    v.try_reserve_exact(elem_len as usize)
-                        .context(AllocationSizeSnafu)?;
-                    v.resize(elem_len as usize, 0);
-                    file.read_exact(&mut v).context(ReadValueDataSnafu)?;
+                    let v = read_value_body(&mut file, elem_len)?;
 
                     builder.source_application_entity_title(
                         text.decode(&v)
@@ -672,11 +686,7 @@ impl FileMetaTable {
                 }
                 Tag(0x0002, 0x0017) => {
                     // Sending Application Entity Title
-                    let mut v = Vec::new();
-                    v.try_reserve_exact(elem_len as usize)
-                        .context(AllocationSizeSnafu)?;
-                    v.resize(elem_len as usize, 0);
-                    file.read_exact(&mut v).context(ReadValueDataSnafu)?;
+                    let v = read_value_body(&mut file, elem_len)?;
 
                     builder.sending_application_entity_title(
                         text.decode(&v)
@@ -685,11 +695,7 @@ impl FileMetaTable {
                 }
                 Tag(0x0002, 0x0018) => {
                     // Receiving Application Entity Title
-                    let mut v = Vec::new();
-                    v.try_reserve_exact(elem_len as usize)
-                        .context(AllocationSizeSnafu)?;
-                    v.resize(elem_len as usize, 0);
-                    file.read_exact(&mut v).context(ReadValueDataSnafu)?;
+                    let v = read_value_body(&mut file, elem_len)?;
 
                     builder.receiving_application_entity_title(
                         text.decode(&v)
@@ -698,11 +704,7 @@ impl FileMetaTable {
                 }
                 Tag(0x0002, 0x0100) => {
                     // Private Information Creator UID
-                    let mut v = Vec::new();
-                    v.try_reserve_exact(elem_len as usize)
-                        .context(AllocationSizeSnafu)?;
-                    v.resize(elem_len as usize, 0);
-                    file.read_exact(&mut v).context(ReadValueDataSnafu)?;
+                    let v = read_value_body(&mut file, elem_len)?;
 
                     builder.private_information_creator_uid(
                         text.decode(&v)
@@ -711,11 +713,7 @@ impl FileMetaTable {
                 }
                 Tag(0x0002, 0x0102) => {
                     // Private Information
-                    let mut v = Vec::new();
-                    v.try_reserve_exact(elem_len as usize)
-                        .context(AllocationSizeSnafu)?;
-                    v.resize(elem_len as usize, 0);
-                    file.read_exact(&mut v).context(ReadValueDataSnafu)?;
+                    let v = read_value_body(&mut file, elem_len)?;
 
                     builder.private_information(v)
                 }
